@@ -535,6 +535,13 @@ func (bc *boundsCtx) defFacts(f *factSet, roots []ssa.Value) {
 					}
 				}
 			}
+			// and against the symbolic start value(s) of the φ itself: an induction variable that starts
+			// at s+k and only grows stays >= s+k
+			for _, e := range x.Edges {
+				if n, _ := bc.term(e, 0); n != "" && n != me {
+					targets = append(targets, n)
+				}
+			}
 			targets = uniqStrings(targets)
 			for _, T := range targets {
 				// lower: T - x <= c  (x >= T - c)
@@ -884,6 +891,38 @@ func checkBoundsOpt(p *Prog, fn *ssa.Function, axioms func(bc *boundsCtx, f *fac
 								break
 							}
 							bc2.subst[ph] = ph.Edges[k]
+						}
+						// the case is infeasible when a branch between the merge and the site tests a boolean φ of
+						// the merge (a "found" flag set together with the index) that is false on this edge
+						infeasible := false
+						for d := b; d != nil && d != m; d = d.Idom() {
+							if len(d.Preds) != 1 {
+								continue
+							}
+							q := d.Preds[0]
+							iff, ok := q.Instrs[len(q.Instrs)-1].(*ssa.If)
+							if !ok || len(q.Succs) != 2 || q.Succs[0] == q.Succs[1] {
+								continue
+							}
+							cond, neg := iff.Cond, false
+							for {
+								if u, ok := cond.(*ssa.UnOp); ok && u.Op == token.NOT {
+									cond, neg = u.X, !neg
+									continue
+								}
+								break
+							}
+							if sv, ok := bc2.subst[cond]; ok {
+								if cv, known := constBool(sv); known {
+									holds := cv != neg
+									if holds != (q.Succs[0] == d) {
+										infeasible = true
+									}
+								}
+							}
+						}
+						if infeasible {
+							continue
 						}
 						okk, _ := attempt(bc2, func(f *factSet) {
 							bc2.edgeFacts(f, pred)
